@@ -311,10 +311,26 @@ def run(ctx, res):
     bm = BusModel(facts)
     writers = store_writers(facts, set(bm.stores))
     res.inventory["store_writers"] = {k: sorted(v) for k, v in writers.items()}
+    import cfg as cfgmod
+    cg = cfgmod.CallGraph(facts)
+
+    def owned(k, seen=()):
+        """an enumerated owner, or a helper that is only ever called (transitively) from enumerated owners -
+        such helpers are inlined by the analyses of their owners (Bus::write here, C16 / C17 / C11 for the others)"""
+        if k in ALLOWED_WRITERS:
+            return True
+        if k in seen:
+            return True
+        cs = cg.callers(k)
+        return bool(cs) and all(owned(c, seen + (k,)) for c in cs)
     for k, v in writers.items():
-        res.ob(k in ALLOWED_WRITERS)
-        if k not in ALLOWED_WRITERS:
-            res.finding("writer|%s" % k, "%s writes backing store(s) %s of the Bus outside the enumerated owners" % (k, sorted(v)))
+        okw = owned(k)
+        res.ob(okw)
+        if not okw:
+            if not cg.callers(k):
+                res.errors.append("%s writes backing store(s) %s but has no direct caller in the crate (dead code or an indirect call): not decidable" % (k, sorted(v)))
+            else:
+                res.finding("writer|%s" % k, "%s writes backing store(s) %s of the Bus and is reachable from outside the enumerated owners (%s)" % (k, sorted(v), ", ".join(c.split("::")[-1] for c in cg.callers(k)[:4])))
     res.floor("bodies writing a backing store", len(writers), 4)
     res.floor("regions mapped", len(region_store), 5)
     res.inventory["region_store"] = region_store
